@@ -37,6 +37,8 @@ namespace {
 #define TRY(expr) do { const Verdict v__ = (expr); if (v__.kind != Verdict::PASS) return v__; } while (0)
 
 const char* const kKnownDupChain = "duplicate-chain-translation";
+const char* const kKnownSelfMention = "merge-self-mention-retranslated";
+const char* const kKnownBaseWithElement = "equate-base-with-non-set";
 
 bool isRSObject(CstType t) { return t == CstType::base || t == CstType::constant || t == CstType::structured || t == CstType::term; }
 bool isBaseSet(CstType t) { return t == CstType::base || t == CstType::constant; }
@@ -88,7 +90,8 @@ bool hasTripleShape(const std::vector<const Snap*>& sns) {
 }
 
 // every text of every operand constituent against its image
-Verdict checkStructure(Ctx& c, const std::vector<View>& views, const Snap& res, const Groups& groups, const std::string& what) {
+// `mergedIn`: index of the view whose constituents were inserted by MergeWith (-1: none) - see the listed finding below
+Verdict checkStructure(Ctx& c, const std::vector<View>& views, const Snap& res, const Groups& groups, const std::string& what, int mergedIn = -1) {
   CHECK(!res.aliasClash, what + "-aliases", "two constituents of the result share an alias: " + res.str());
   for (const auto& r : res.rows) CHECK(r.alias.size() >= 2 && r.alias[0] == sgen::letterOf(r.type), what + "-aliases", "alias letter does not match the kind: " + r.str());
   std::set<EntityUID> covered;
@@ -120,6 +123,19 @@ Verdict checkStructure(Ctx& c, const std::vector<View>& views, const Snap& res, 
           if (firstMsg.empty() || (m.first == static_cast<int>(vi) && m.second == o.uid)) firstMsg = mm;
         }
         if (!ok && f == sgen::F_TERM && newTerms) for (const auto& t : *newTerms) ok = ok || r->term == t;
+        if (!ok && pbt::known(kKnownSelfMention) && mergedIn >= 0) {
+          // listed finding: a merged-in constituent that mentions itself and whose alias is taken in the target gets its
+          // own (already renamed) alias translated a second time
+          for (const auto& m : members) {
+            if (m.first != mergedIn) continue;
+            const Row* mo = views[static_cast<size_t>(m.first)].sn->find(m.second);
+            bool self = false;
+            for (const auto& a : sgen::aliasesOf(sgen::splitField(sgen::fieldOf(*mo, f), f))) self = self || a == mo->alias;
+            bool taken = false;
+            for (size_t w = 0; w < views.size(); ++w) if (static_cast<int>(w) != mergedIn && views[w].sn->findAlias(mo->alias)) taken = true;
+            if (self && taken) return pbt::excluded(kKnownSelfMention);
+          }
+        }
         CHECK(ok, what + (f == sgen::F_DEF ? "-definition" : f == sgen::F_CONV ? "-convention" : "-texts"),
               std::string(sgen::fieldName(f)) + " of the image is not the rewritten " + sgen::fieldName(f) + " of " + (members.size() > 1 ? "any member of its equated class" : "its pre-image") + ": " + firstMsg + "; " + at);
         if (wildOfOk) c.count("unconstrained:unresolved-mention", wildOfOk);
@@ -352,6 +368,25 @@ TableFacts analyse(const std::vector<std::tuple<const Row*, const Row*>>& pairs,
   return f;
 }
 
+// input class of the listed finding "equate-base-with-non-set": a base set is equated with a structure / term whose
+// typification is not a set, and another (non-basic) pair has a member whose typification mentions that base set
+bool baseWithNonSetClass(const std::vector<std::tuple<const Row*, const Row*>>& pairs, const Snap& sa, const Snap& sb) {
+  auto mentionsAlias = [](const Row& r, const std::string& alias) { for (const auto& a : sgen::aliasesOf(sgen::splitFormal(r.typ))) if (a == alias) return true; return false; };
+  for (const auto& [k, v] : pairs) {
+    if (!k || !v) continue;
+    for (int side = 0; side < 2; ++side) {
+      const Row* b = side == 0 ? k : v; const Row* o = side == 0 ? v : k;
+      const Snap* bs = side == 0 ? &sa : &sb;
+      if (!isBaseSet(b->type) || isBaseSet(o->type) || !o->typed || o->logic || o->typ.rfind("ℬ", 0) == 0) continue;
+      for (const auto& [k2, v2] : pairs) {
+        if (!k2 || !v2 || k2 == k || isBaseSet(k2->type) || isBaseSet(v2->type)) continue;
+        if ((&sa == bs && k2->typed && mentionsAlias(*k2, b->alias)) || (&sb == bs && v2->typed && mentionsAlias(*v2, b->alias))) return true;
+      }
+    }
+  }
+  return false;
+}
+
 // ---------------------------------------------------------------------------------------------------------------
 // synthesis
 Verdict propSynthesis(Ctx& c) {
@@ -387,6 +422,8 @@ Verdict propSynthesis(Ctx& c) {
   }
   const TableFacts facts = analyse(pairs, b1, 0, b2, 1);
   const bool unresolvedAny = sgen::hasUnresolved(b1) || sgen::hasUnresolved(b2);  // a missing name of one operand may be captured by the other
+
+  if (pbt::known(kKnownBaseWithElement) && baseWithNonSetClass(pairs, b1, b2)) return pbt::excluded(kKnownBaseWithElement);
 
   BinarySynthes op(s1, *s2, opts);
   const bool defined = op.IsCorrectlyDefined();
@@ -443,7 +480,7 @@ Verdict propSynthesis(Ctx& c) {
     CHECK(views[0].img.at(k->uid) == views[1].img.at(v->uid), "one-survivor", "equated " + k->str() + " ~ " + v->str() + " map to different constituents");
     groups.join({0, k->uid}, {1, v->uid}, eqOf[i]->mode == 3 ? &eqOf[i]->arg : nullptr);
   }
-  TRY(checkStructure(c, views, res, groups, "synthesis"));
+  TRY(checkStructure(c, views, res, groups, "synthesis", 1));
   if (res.rows.size() < b1.rows.size() + (sec.mode == 3 ? 0 : b2.rows.size()) - pairs.size()) c.label("synthesis:duplicates-removed");
   if (bothCorrect && (pairs.empty() || facts.like)) { c.label("synthesis:typification-checked"); TRY(checkTypes(c, views, res, "synthesis")); }
   else c.count("unconstrained:correctness-of-result(operands incorrect or table not like-with-like)");
@@ -504,6 +541,8 @@ Verdict propEquate(Ctx& c) {
   }
   bool wrongDirection = false;  // derived key with base value, term key with structure value: documented as refused
   for (const auto& [k, v] : pairs) if (k && v && ((!isBaseSet(k->type) && isBaseSet(v->type)) || (!isBaseNotion(k->type) && isBaseNotion(v->type)))) wrongDirection = true;
+
+  if (pbt::known(kKnownBaseWithElement) && baseWithNonSetClass(pairs, before, before)) return pbt::excluded(kKnownBaseWithElement);
 
   const bool equatable = s.Ops().IsEquatable(opts);
   CHECK(sgen::snapshot(s).json == before.json, "refused-changes", "IsEquatable changed the schema");
@@ -633,7 +672,7 @@ Verdict propMerge(Ctx& c) {
     views[1].img[r.uid] = tr(r.uid);
   }
   CHECK(tr.size() == b2.rows.size(), "translation-total", "translation has " + std::to_string(tr.size()) + " entries for " + std::to_string(b2.rows.size()) + " constituents");
-  TRY(checkStructure(c, views, res, Groups{}, "merge"));
+  TRY(checkStructure(c, views, res, Groups{}, "merge", 1));
   if (b1.fullyCorrect() && b2.fullyCorrect()) { c.label("merge:typification-checked"); TRY(checkTypes(c, views, res, "merge")); }
   else c.label("merge:operands-partially-incorrect");
   return pbt::pass();
